@@ -396,3 +396,59 @@ func TestFlattenSplitsStruct(t *testing.T) {
 		t.Errorf("closed %v, received from %v", closed, received)
 	}
 }
+
+// A method of a local state struct called where the anchors name a local
+// literal becomes that literal again, and the struct dissolves into the
+// variables it captures.
+func TestFlattenRehomesMethod(t *testing.T) {
+	p := loadFlat(t, "fix.FlatMethod", "fix.FlatMethod$emit")
+	fn := p.Func("fix", "FlatMethod")
+	var lit *ssa.Function
+	calls := 0
+	for _, b := range fn.Blocks {
+		for _, in := range b.Instrs {
+			switch x := in.(type) {
+			case *ssa.Call:
+				if mc, ok := x.Call.Value.(*ssa.MakeClosure); ok {
+					lit = mc.Fn.(*ssa.Function)
+					calls++
+					if len(x.Call.Args) != 1 {
+						t.Errorf("call of the literal with %d arguments", len(x.Call.Args))
+					}
+				}
+			case *ssa.Alloc:
+				if _, isStruct := x.Type().Underlying().(*types.Pointer).Elem().Underlying().(*types.Struct); isStruct {
+					t.Errorf("still has the struct variable %s", x)
+				}
+			}
+		}
+	}
+	if lit == nil || calls != 2 {
+		t.Fatalf("literal %v called %d times", lit, calls)
+	}
+	if got := p.AnchorName(lit); got != "fix.FlatMethod$emit" {
+		t.Errorf("anchor name %q", got)
+	}
+	if err := lit.SanityCheck(); err != nil {
+		t.Fatal(err)
+	}
+	if len(lit.Params) != 1 || len(lit.FreeVars) != 2 {
+		t.Errorf("literal has %d parameters and %d captured variables", len(lit.Params), len(lit.FreeVars))
+	}
+}
+
+// An anchor name the tree no longer has is answered by the one declared
+// function of the package that has the recorded signature and is no anchor.
+func TestRenamedAnchor(t *testing.T) {
+	p := loadFlat(t, "fix.EnumerateOnce\t([]int,[]int,func(int) bool)()")
+	fn := p.Func("fix", "EnumerateOnce")
+	if fn == nil || fn.Name() != "FlatMethod" {
+		t.Fatalf("EnumerateOnce resolved to %v", fn)
+	}
+	if got := p.AnchorName(fn); got != "fix.EnumerateOnce" {
+		t.Errorf("anchor name %q", got)
+	}
+	if !p.IsAnchor(fn) {
+		t.Error("the renamed function is not treated as an anchor")
+	}
+}
